@@ -48,6 +48,8 @@ func (h *Handler[C]) Handle(w *responsewriter.ResponseWriter[C], r *pool.Message
 		}
 	}
 	h.next(w, r)
+	// RFC 7967 whichever way the handler has set its response
+	w.DropIfNotOfInterest()
 }
 
 // isRequest reports whether r carries a method code (0.01 - 0.31).
